@@ -1,7 +1,1029 @@
-//! C07 — gate constraints pin generated values (see DESIGN.md §C07).
+//! C07 — every value a gate computes is pinned by that gate's constraints; the base-field, packed,
+//! extension-field and in-circuit evaluators of a gate agree, return exactly `num_constraints()`
+//! values and stay within the declared degree (see DESIGN.md §C07).
+//!
+//! Sub-checks
+//!   honest_row            a row filled in by the gate's own generators satisfies every constraint
+//!   pinned                every generator-written wire x 3 replacement values => some constraint != 0
+//!   evaluators_base       eval_unfiltered == eval_unfiltered_base_batch (batch 1, 3, 32, 33) ==
+//!                         eval_unfiltered_base_one (where the gate implements it), on arbitrary rows
+//!   evaluators_circuit    eval_unfiltered == values read back from a witness generated for
+//!                         eval_unfiltered_circuit, on arbitrary extension-field rows
+//!   degree                constraint polynomials of random low-degree wire polynomials have degree
+//!                         <= degree() * (n - 1)
+//!
+//! The oracle side is written here from the documented meaning of the API (row layout of
+//! `EvaluationVarsBaseBatch`, "generators fill the row", "constraints vanish on an honest row");
+//! no gate formula is re-used to judge itself except through *another* evaluator of the same gate.
 
-use crate::engine::Ctx;
+use std::collections::{BTreeMap, BTreeSet};
+
+use plonky2::field::extension::FieldExtension;
+use plonky2::field::polynomial::PolynomialValues;
+use plonky2::field::types::{Field, PrimeField64};
+use plonky2::gates::arithmetic_base::ArithmeticGate;
+use plonky2::gates::arithmetic_extension::ArithmeticExtensionGate;
+use plonky2::gates::base_sum::BaseSumGate;
+use plonky2::gates::constant::ConstantGate;
+use plonky2::gates::coset_interpolation::CosetInterpolationGate;
+use plonky2::gates::exponentiation::ExponentiationGate;
+use plonky2::gates::gate::GateRef;
+use plonky2::gates::multiplication_extension::MulExtensionGate;
+use plonky2::gates::noop::NoopGate;
+use plonky2::gates::poseidon::PoseidonGate;
+use plonky2::gates::poseidon_mds::PoseidonMdsGate;
+use plonky2::gates::public_input::PublicInputGate;
+use plonky2::gates::random_access::RandomAccessGate;
+use plonky2::gates::reducing::ReducingGate;
+use plonky2::gates::reducing_extension::ReducingExtensionGate;
+use plonky2::gates::util::StridedConstraintConsumer;
+use plonky2::hash::hash_types::HashOut;
+use plonky2::iop::generator::{
+    generate_partial_witness, ConstantGenerator, GeneratedValues, SimpleGenerator, WitnessGeneratorRef,
+};
+use plonky2::iop::target::Target;
+use plonky2::iop::wire::Wire;
+use plonky2::iop::witness::{PartialWitness, PartitionWitness, Witness, WitnessWrite};
+use plonky2::plonk::circuit_builder::CircuitBuilder;
+use plonky2::plonk::circuit_data::CircuitConfig;
+use plonky2::plonk::config::PoseidonGoldilocksConfig;
+use plonky2::plonk::vars::{EvaluationTargets, EvaluationVars, EvaluationVarsBaseBatch};
+use proptest::prelude::*;
+use serde::{Deserialize, Serialize};
+use serde_json::json;
+
+use crate::engine::{bx, frac, Ctx, Stats};
+use crate::gen::dsl::{ext_from_arr, ext_from_base, ext_to_arr, D, F, FE};
+use crate::gen::field::{any_repr, canonical, canonical_nonzero, class_of, P};
+
+type G = GateRef<F, D>;
+
+// ------------------------------------------------------------------------------------------
+// Gate selector + parameters
+// ------------------------------------------------------------------------------------------
+
+#[derive(Clone, Debug, Serialize, Deserialize, PartialEq, Eq, Hash)]
+pub enum Spec {
+    Arithmetic { num_ops: usize },
+    ArithmeticExt { num_ops: usize },
+    MulExt { num_ops: usize },
+    BaseSum { base: usize, num_limbs: usize },
+    Constant { num_consts: usize },
+    /// `max_degree == 0` means `CosetInterpolationGate::new(bits)`.
+    Coset { bits: usize, max_degree: usize },
+    Exp { bits: usize },
+    Poseidon,
+    PoseidonMds,
+    PublicInput,
+    /// Built with `new_from_config` on a config with these three numbers.
+    RandomAccess { bits: usize, num_wires: usize, num_routed_wires: usize, num_constants: usize },
+    Reducing { n: usize },
+    ReducingExt { n: usize },
+    Noop,
+}
+
+fn ra_gate(bits: usize, nw: usize, nr: usize, nc: usize) -> RandomAccessGate<F, D> {
+    let config = CircuitConfig {
+        num_wires: nw,
+        num_routed_wires: nr,
+        num_constants: nc,
+        ..CircuitConfig::standard_recursion_config()
+    };
+    RandomAccessGate::<F, D>::new_from_config(&config, bits)
+}
+
+impl Spec {
+    fn kind(&self) -> &'static str {
+        match self {
+            Spec::Arithmetic { .. } => "ArithmeticGate",
+            Spec::ArithmeticExt { .. } => "ArithmeticExtensionGate",
+            Spec::MulExt { .. } => "MulExtensionGate",
+            Spec::BaseSum { base, .. } => match base {
+                2 => "BaseSumGate<2>",
+                3 => "BaseSumGate<3>",
+                4 => "BaseSumGate<4>",
+                _ => "BaseSumGate<16>",
+            },
+            Spec::Constant { .. } => "ConstantGate",
+            Spec::Coset { .. } => "CosetInterpolationGate",
+            Spec::Exp { .. } => "ExponentiationGate",
+            Spec::Poseidon => "PoseidonGate",
+            Spec::PoseidonMds => "PoseidonMdsGate",
+            Spec::PublicInput => "PublicInputGate",
+            Spec::RandomAccess { .. } => "RandomAccessGate",
+            Spec::Reducing { .. } => "ReducingGate",
+            Spec::ReducingExt { .. } => "ReducingExtensionGate",
+            Spec::Noop => "NoopGate",
+        }
+    }
+
+    fn gate(&self) -> G {
+        match *self {
+            Spec::Arithmetic { num_ops } => GateRef::new(ArithmeticGate { num_ops }),
+            Spec::ArithmeticExt { num_ops } => GateRef::new(ArithmeticExtensionGate::<D> { num_ops }),
+            Spec::MulExt { num_ops } => GateRef::new(MulExtensionGate::<D> { num_ops }),
+            Spec::BaseSum { base, num_limbs } => match base {
+                2 => GateRef::new(BaseSumGate::<2>::new(num_limbs)),
+                3 => GateRef::new(BaseSumGate::<3>::new(num_limbs)),
+                4 => GateRef::new(BaseSumGate::<4>::new(num_limbs)),
+                16 => GateRef::new(BaseSumGate::<16>::new(num_limbs)),
+                b => panic!("harness: unsupported base {}", b),
+            },
+            Spec::Constant { num_consts } => GateRef::new(ConstantGate::new(num_consts)),
+            Spec::Coset { bits, max_degree } => {
+                if max_degree == 0 {
+                    GateRef::new(CosetInterpolationGate::<F, D>::new(bits))
+                } else {
+                    GateRef::new(plonky2::verif_hooks::coset_interpolation_gate_with_max_degree::<F, D>(bits, max_degree))
+                }
+            }
+            Spec::Exp { bits } => GateRef::new(ExponentiationGate::<F, D>::new(bits)),
+            Spec::Poseidon => GateRef::new(PoseidonGate::<F, D>::new()),
+            Spec::PoseidonMds => GateRef::new(PoseidonMdsGate::<F, D>::new()),
+            Spec::PublicInput => GateRef::new(PublicInputGate),
+            Spec::RandomAccess { bits, num_wires, num_routed_wires, num_constants } => {
+                GateRef::new(ra_gate(bits, num_wires, num_routed_wires, num_constants))
+            }
+            Spec::Reducing { n } => GateRef::new(ReducingGate::<D>::new(n)),
+            Spec::ReducingExt { n } => GateRef::new(ReducingExtensionGate::<D>::new(n)),
+            Spec::Noop => GateRef::new(NoopGate),
+        }
+    }
+
+    /// Does the gate implement `eval_unfiltered_base_one` (the others panic with
+    /// "use eval_unfiltered_base_packed instead", as documented in gate.rs: not needed when
+    /// `eval_unfiltered_base_batch` is overridden).
+    fn has_base_one(&self) -> bool {
+        matches!(
+            self,
+            Spec::ArithmeticExt { .. }
+                | Spec::MulExt { .. }
+                | Spec::Coset { .. }
+                | Spec::Poseidon
+                | Spec::PoseidonMds
+                | Spec::Reducing { .. }
+                | Spec::ReducingExt { .. }
+                | Spec::Noop
+        )
+    }
+
+    /// Generator preconditions of input wires, read from the generators' code and the gadgets
+    /// that place these gates (split_le_base / exp / interpolate_coset / random_access / permute_swapped).
+    fn role(&self, wire: usize) -> Role {
+        match *self {
+            // BaseSplitGenerator: "Integer too large to fit in given number of limbs".
+            Spec::BaseSum { base, num_limbs } if wire == 0 => Role::Below((base as u64).pow(num_limbs as u32)),
+            // InterpolationGenerator inverts the coset shift.
+            Spec::Coset { .. } if wire == 0 => Role::NonZero,
+            // ExponentiationGenerator: power bits are bits.
+            Spec::Exp { bits } if (1..=bits).contains(&wire) => Role::Bit,
+            // PoseidonGenerator: swap is 0 or 1.
+            Spec::Poseidon if wire == 24 => Role::Bit,
+            // RandomAccessGenerator: access index < vec size.
+            Spec::RandomAccess { bits, num_wires, num_routed_wires, num_constants } => {
+                let g = ra_gate(bits, num_wires, num_routed_wires, num_constants);
+                let per = 2 + (1usize << bits);
+                if wire % per == 0 && wire / per < g.num_copies {
+                    Role::Below(1u64 << bits)
+                } else {
+                    Role::Any
+                }
+            }
+            _ => Role::Any,
+        }
+    }
+}
+
+#[derive(Clone, Copy, Debug, PartialEq, Eq)]
+enum Role {
+    Any,
+    Bit,
+    NonZero,
+    Below(u64),
+}
+
+/// Largest `num_limbs` with `B^num_limbs < p` (the sum must be a canonical integer).
+fn max_limbs(base: usize) -> usize {
+    match base {
+        2 => 63,
+        3 => 40,
+        4 => 31,
+        _ => 15,
+    }
+}
+
+fn ra_spec() -> BoxedStrategy<Spec> {
+    (1usize..=6, any::<u16>(), 0usize..=5, 0usize..=4, 0usize..=4)
+        .prop_map(|(bits, copies_raw, extra_r, extra_w, nconst)| {
+            let max_copies = match bits {
+                1..=3 => 6,
+                4 => 4,
+                5 => 3,
+                _ => 2,
+            };
+            let copies = 1 + frac(copies_raw, max_copies);
+            let vs = 1usize << bits;
+            let nr = (2 + vs) * copies + extra_r;
+            let nw = nr.max((2 + vs + bits) * copies + extra_w);
+            Spec::RandomAccess { bits, num_wires: nw, num_routed_wires: nr, num_constants: nconst }
+        })
+        .boxed()
+}
+
+fn coset_spec() -> BoxedStrategy<Spec> {
+    (1usize..=5, any::<u16>(), 0u8..8)
+        .prop_map(|(bits, md_raw, mode)| {
+            let n = 1usize << bits;
+            let max_degree = match mode {
+                0 | 1 => 0,                               // ::new
+                2 | 3 => 2 + frac(md_raw, 4),             // small bounds: many intermediates
+                _ => 2 + frac(md_raw, n + 1),             // 2..=n+2
+            };
+            Spec::Coset { bits, max_degree }
+        })
+        .boxed()
+}
+
+/// `honest`: restrict to parameters for which the generators' preconditions can be met.
+fn spec_strategy(honest: bool) -> BoxedStrategy<Spec> {
+    let base_sum = (prop_oneof![Just(2usize), Just(3usize), Just(4usize), Just(16usize)], any::<u16>())
+        .prop_map(move |(base, raw)| {
+            let max = if honest { max_limbs(base) } else { 63 };
+            Spec::BaseSum { base, num_limbs: 1 + frac(raw, max) }
+        });
+    prop_oneof![
+        3 => (1usize..=20).prop_map(|num_ops| Spec::Arithmetic { num_ops }),
+        2 => (1usize..=10).prop_map(|num_ops| Spec::ArithmeticExt { num_ops }),
+        2 => (1usize..=13).prop_map(|num_ops| Spec::MulExt { num_ops }),
+        6 => base_sum,
+        1 => (1usize..=4).prop_map(|num_consts| Spec::Constant { num_consts }),
+        5 => coset_spec(),
+        4 => (1usize..=60).prop_map(|bits| Spec::Exp { bits }),
+        2 => Just(Spec::Poseidon),
+        1 => Just(Spec::PoseidonMds),
+        1 => Just(Spec::PublicInput),
+        5 => ra_spec(),
+        3 => (1usize..=30).prop_map(|n| Spec::Reducing { n }),
+        3 => (1usize..=30).prop_map(|n| Spec::ReducingExt { n }),
+        1 => Just(Spec::Noop),
+    ]
+    .boxed()
+}
+
+/// Every parameter value of every gate, in a fixed order (deterministic sweep).
+fn all_specs() -> Vec<Spec> {
+    let mut v = vec![];
+    v.extend((1..=20).map(|num_ops| Spec::Arithmetic { num_ops }));
+    v.extend((1..=10).map(|num_ops| Spec::ArithmeticExt { num_ops }));
+    v.extend((1..=13).map(|num_ops| Spec::MulExt { num_ops }));
+    for base in [2usize, 3, 4, 16] {
+        v.extend((1..=max_limbs(base)).map(|num_limbs| Spec::BaseSum { base, num_limbs }));
+    }
+    v.extend((1..=4).map(|num_consts| Spec::Constant { num_consts }));
+    for bits in 1..=5usize {
+        v.push(Spec::Coset { bits, max_degree: 0 });
+        for max_degree in 2..=(1usize << bits) + 1 {
+            v.push(Spec::Coset { bits, max_degree });
+        }
+    }
+    v.extend((1..=60).map(|bits| Spec::Exp { bits }));
+    v.push(Spec::Poseidon);
+    v.push(Spec::PoseidonMds);
+    v.push(Spec::PublicInput);
+    for bits in 1..=6usize {
+        let vs = 1usize << bits;
+        for copies in [1usize, 2, 3] {
+            for (extra_r, extra_w, nconst) in [(0usize, 0usize, 0usize), (3, 0, 2), (1, 4, 4), (5, 2, 1)] {
+                let nr = (2 + vs) * copies + extra_r;
+                let nw = nr.max((2 + vs + bits) * copies + extra_w);
+                v.push(Spec::RandomAccess { bits, num_wires: nw, num_routed_wires: nr, num_constants: nconst });
+            }
+        }
+    }
+    v.extend((1..=30).map(|n| Spec::Reducing { n }));
+    v.extend((1..=30).map(|n| Spec::ReducingExt { n }));
+    v.push(Spec::Noop);
+    v
+}
+
+// ------------------------------------------------------------------------------------------
+// Small helpers
+// ------------------------------------------------------------------------------------------
+
+fn f(x: u64) -> F {
+    // Any 64-bit representation is a valid in-memory GoldilocksField.
+    plonky2::field::goldilocks_field::GoldilocksField(x)
+}
+
+fn fe(x: [u64; 2]) -> FE {
+    ext_from_arr([f(x[0]), f(x[1])])
+}
+
+fn canon(x: FE) -> [u64; 2] {
+    let a = ext_to_arr(x);
+    [a[0].to_canonical_u64(), a[1].to_canonical_u64()]
+}
+
+fn pih_of(raw: &[u64; 4]) -> HashOut<F> {
+    HashOut { elements: [f(raw[0]), f(raw[1]), f(raw[2]), f(raw[3])] }
+}
+
+fn eval_ext(gate: &G, consts: &[FE], wires: &[FE], pih: &HashOut<F>) -> Vec<FE> {
+    gate.0.eval_unfiltered(EvaluationVars { local_constants: consts, local_wires: wires, public_inputs_hash: pih })
+}
+
+fn lift(v: &[F]) -> Vec<FE> {
+    v.iter().map(|&x| ext_from_base(x)).collect()
+}
+
+fn param_bucket(s: &Spec) -> String {
+    let p = match *s {
+        Spec::Arithmetic { num_ops } | Spec::ArithmeticExt { num_ops } | Spec::MulExt { num_ops } => num_ops,
+        Spec::BaseSum { num_limbs, .. } => num_limbs,
+        Spec::Constant { num_consts } => num_consts,
+        Spec::Coset { bits, .. } => bits,
+        Spec::Exp { bits } => bits,
+        Spec::RandomAccess { bits, .. } => bits,
+        Spec::Reducing { n } | Spec::ReducingExt { n } => n,
+        _ => 0,
+    };
+    let b = match p {
+        0 => "-",
+        1 => "1",
+        2..=4 => "2-4",
+        5..=15 => "5-15",
+        16..=40 => "16-40",
+        _ => "41+",
+    };
+    format!("gate:{}:param={}", s.kind(), b)
+}
+
+// ------------------------------------------------------------------------------------------
+// Honest rows: the gate's own generators fill the row
+// ------------------------------------------------------------------------------------------
+
+#[derive(Clone, Debug, Serialize, Deserialize)]
+pub struct RowCase {
+    pub spec: Spec,
+    /// one (raw value, selector) per wire; used at the wires that turn out to be inputs
+    pub inputs: Vec<(u64, u8)>,
+    pub consts: Vec<u64>,
+    pub pih: [u64; 4],
+    /// one generated canonical replacement value per wire (used by `pinned`)
+    pub repl: Vec<u64>,
+}
+
+fn row_case() -> BoxedStrategy<RowCase> {
+    bx(spec_strategy(true).prop_flat_map(|spec| {
+        let g = spec.gate();
+        let (nw, nc) = (g.0.num_wires(), g.0.num_constants());
+        (
+            Just(spec),
+            prop::collection::vec((any_repr(), any::<u8>()), nw..=nw),
+            prop::collection::vec(any_repr(), nc..=nc),
+            [any_repr(), any_repr(), any_repr(), any_repr()],
+            prop::collection::vec(canonical(), nw..=nw),
+        )
+            .prop_map(|(spec, inputs, consts, pih, repl)| RowCase { spec, inputs, consts, pih, repl })
+    }))
+}
+
+fn input_value(role: Role, raw: u64, sel: u8) -> F {
+    match role {
+        Role::Any => f(raw),
+        Role::NonZero => {
+            if raw % P == 0 {
+                F::ONE
+            } else {
+                f(raw)
+            }
+        }
+        Role::Bit => {
+            let b = raw & 1;
+            // occasionally the non-canonical representation p + b of the same residue
+            if sel & 3 == 3 {
+                f(P + b)
+            } else {
+                f(b)
+            }
+        }
+        Role::Below(bound) => {
+            let v = match sel & 3 {
+                0 | 1 => raw % bound,
+                2 => bound - 1 - (raw % 4).min(bound - 1),
+                _ => (raw % 4) % bound,
+            };
+            if sel & 0x10 != 0 && v < 0xFFFF_FFFF {
+                f(P + v)
+            } else {
+                f(v)
+            }
+        }
+    }
+}
+
+struct Honest {
+    wires: Vec<F>,
+    consts: Vec<F>,
+    pih: HashOut<F>,
+    /// columns written by some generator
+    written: Vec<usize>,
+    /// columns that generators read but none writes
+    inputs: Vec<usize>,
+}
+
+/// The gate's generators as the circuit builder instantiates them: `Gate::generators` plus one
+/// `ConstantGenerator` per `extra_constant_wires()` entry, carrying the row's constant.
+fn gens_for(gate: &G, consts: &[F]) -> Vec<WitnessGeneratorRef<F, D>> {
+    let mut g = gate.0.generators(0, consts);
+    for (ci, wi) in gate.0.extra_constant_wires() {
+        let cg = ConstantGenerator::<F> { row: 0, constant_index: ci, wire_index: wi, constant: consts[ci] };
+        g.push(WitnessGeneratorRef::new(<ConstantGenerator<F> as SimpleGenerator<F, D>>::adapter(cg)));
+    }
+    g
+}
+
+fn col_of(t: Target, nw: usize) -> Result<usize, String> {
+    match t {
+        Target::Wire(Wire { row: 0, column }) if column < nw => Ok(column),
+        other => Err(format!("generator touches a target outside its own row: {:?}", other)),
+    }
+}
+
+fn build_honest(spec: &Spec, gate: &G, c: &RowCase) -> Result<Honest, String> {
+    let nw = gate.0.num_wires();
+    let nc = gate.0.num_constants();
+    if c.inputs.len() < nw || c.consts.len() < nc || c.repl.len() < nw {
+        return Err("harness: case does not match the gate's width".into());
+    }
+    let consts: Vec<F> = c.consts[..nc].iter().map(|&x| f(x)).collect();
+    let pih = pih_of(&c.pih);
+    let gens = gens_for(gate, &consts);
+    let idmap: Vec<usize> = (0..nw.max(1)).collect();
+
+    // Phase 1 (mechanical discovery): run every generator once on dummy inputs (all ones satisfy
+    // every precondition above) and record what it watches and what it writes.
+    let mut watched = BTreeSet::new();
+    let mut written = BTreeSet::new();
+    {
+        let mut dummy = PartitionWitness::<F>::new(nw, 1, &idmap);
+        for g in &gens {
+            for t in g.0.watch_list() {
+                let col = col_of(t, nw)?;
+                watched.insert(col);
+                dummy.set_target(t, F::ONE).map_err(|e| format!("{:#}", e))?;
+            }
+        }
+        for g in &gens {
+            let mut buf = GeneratedValues::<F>::empty();
+            if !g.0.run(&dummy, &mut buf) {
+                return Err(format!("generator {} did not finish although all its watched wires are set", g.0.id()));
+            }
+            for (t, _) in buf.target_values {
+                written.insert(col_of(t, nw)?);
+            }
+        }
+    }
+    let inputs: Vec<usize> = watched.difference(&written).copied().collect();
+
+    // Phase 2: real inputs, then the generators until all have finished.
+    let mut w = PartitionWitness::<F>::new(nw, 1, &idmap);
+    for col in 0..nw {
+        if written.contains(&col) {
+            continue;
+        }
+        let (raw, sel) = c.inputs[col];
+        let v = if watched.contains(&col) {
+            input_value(spec.role(col), raw, sel)
+        } else if matches!(spec, Spec::PublicInput) && col < 4 {
+            // PublicInputGate has no generator: the builder routes the in-circuit hash here.
+            pih.elements[col]
+        } else {
+            f(raw) // a wire nobody reads or writes
+        };
+        w.set_target(Target::wire(0, col), v).map_err(|e| format!("{:#}", e))?;
+    }
+    let mut done = vec![false; gens.len()];
+    let mut written2 = BTreeSet::new();
+    loop {
+        let mut progress = false;
+        for (i, g) in gens.iter().enumerate() {
+            if done[i] {
+                continue;
+            }
+            let mut buf = GeneratedValues::<F>::empty();
+            let fin = g.0.run(&w, &mut buf);
+            for (t, v) in buf.target_values {
+                written2.insert(col_of(t, nw)?);
+                w.set_target(t, v).map_err(|e| format!("generator {} contradicts an already set wire: {:#}", g.0.id(), e))?;
+                progress = true;
+            }
+            if fin {
+                done[i] = true;
+                progress = true;
+            }
+        }
+        if done.iter().all(|&d| d) {
+            break;
+        }
+        if !progress {
+            return Err(format!("generators of {} make no progress on valid inputs", gate.0.id()));
+        }
+    }
+    if written2 != written {
+        return Err(format!(
+            "generators of {} write different wires on different inputs: {:?} vs {:?}",
+            gate.0.id(),
+            written.symmetric_difference(&written2).collect::<Vec<_>>(),
+            ()
+        ));
+    }
+    let mut wires = Vec::with_capacity(nw);
+    for col in 0..nw {
+        match w.try_get_target(Target::wire(0, col)) {
+            Some(v) => wires.push(v),
+            None => return Err(format!("wire {} of {} is neither an input nor generator-written", col, gate.0.id())),
+        }
+    }
+    Ok(Honest { wires, consts, pih, written: written.into_iter().collect(), inputs })
+}
+
+fn check_honest(gate: &G, h: &Honest) -> Result<(), String> {
+    let out = eval_ext(gate, &lift(&h.consts), &lift(&h.wires), &h.pih);
+    if out.len() != gate.0.num_constraints() {
+        return Err(format!("{}: eval_unfiltered returned {} values, num_constraints() = {}", gate.0.id(), out.len(), gate.0.num_constraints()));
+    }
+    if let Some(j) = out.iter().position(|x| canon(*x) != [0, 0]) {
+        return Err(format!("{}: constraint {} is non-zero ({:?}) on the row filled in by the gate's own generators", gate.0.id(), j, canon(out[j])));
+    }
+    Ok(())
+}
+
+fn input_classes(h: &Honest) -> Vec<&'static str> {
+    let s: BTreeSet<&'static str> = h.inputs.iter().map(|&c| class_of(h.wires[c].0)).collect();
+    s.into_iter().collect()
+}
+
+fn prop_honest(c: &RowCase, st: &mut Stats) -> Result<(), String> {
+    let gate = c.spec.gate();
+    let h = build_honest(&c.spec, &gate, c)?;
+    check_honest(&gate, &h)?;
+    st.label(&param_bucket(&c.spec));
+    let classes = input_classes(&h);
+    for cl in &classes {
+        st.label(&format!("input_class:{}", cl));
+    }
+    if gate.0.num_constraints() >= 1 {
+        st.nontrivial(&(gate.0.id(), usize::MAX, classes));
+    } else {
+        st.label("trivial:no_constraints");
+    }
+    st.sample(|| json!({"gate": gate.0.id(), "inputs": h.inputs.len(), "written": h.written.len(), "constraints": gate.0.num_constraints()}));
+    Ok(())
+}
+
+/// (gate kind, wire role) pairs that are generator-written but documented as unconstrained.
+/// Empty: none was found.
+fn documented_unconstrained(_spec: &Spec, _wire: usize) -> bool {
+    false
+}
+
+/// Returns (written wires, wires for which every replacement was detected).
+fn check_pinned(c: &RowCase, gate: &G, h: &Honest, st: &mut Stats) -> Result<(usize, usize), String> {
+    let consts = lift(&h.consts);
+    let mut wires = lift(&h.wires);
+    let id = gate.0.id();
+    let mut pinned = 0usize;
+    for &col in &h.written {
+        if documented_unconstrained(&c.spec, col) {
+            continue;
+        }
+        let old = h.wires[col].to_canonical_u64();
+        let mut g = c.repl[col] % P;
+        if g == old {
+            g = (g + 1) % P;
+        }
+        let repls = [(old + 1) % P, if old != 0 { 0 } else { 1 }, g];
+        for new in repls {
+            wires[col] = ext_from_base(f(new));
+            let out = eval_ext(gate, &consts, &wires, &h.pih);
+            st.evals(1);
+            if out.iter().all(|x| canon(*x) == [0, 0]) {
+                return Err(format!(
+                    "value not pinned: {} wire {} (generator-written): replacing {} by {} leaves all {} constraints zero",
+                    id,
+                    col,
+                    old,
+                    new,
+                    out.len()
+                ));
+            }
+        }
+        wires[col] = ext_from_base(h.wires[col]);
+        pinned += 1;
+        st.nontrivial(&(id.clone(), col, class_of(old)));
+        st.label(&format!("replaced_class:{}", class_of(old)));
+    }
+    Ok((h.written.len(), pinned))
+}
+
+fn prop_pinned(c: &RowCase, st: &mut Stats) -> Result<(), String> {
+    let gate = c.spec.gate();
+    let h = build_honest(&c.spec, &gate, c)?;
+    check_honest(&gate, &h)?;
+    st.label(&param_bucket(&c.spec));
+    if h.written.is_empty() {
+        st.label("trivial:no_written_wire");
+        return Ok(());
+    }
+    let (nwr, npin) = check_pinned(c, &gate, &h, st)?;
+    st.label_n(&format!("written_wires:{}", c.spec.kind()), nwr as u64);
+    st.label_n(&format!("pinned_wires:{}", c.spec.kind()), npin as u64);
+    st.sample(|| json!({"gate": gate.0.id(), "written": nwr, "pinned": npin}));
+    Ok(())
+}
+
+// ------------------------------------------------------------------------------------------
+// Evaluators: extension field vs base batch (packed + remainder) vs base one
+// ------------------------------------------------------------------------------------------
+
+const POINTS: usize = 33;
+
+#[derive(Clone, Debug, Serialize, Deserialize)]
+pub struct BaseCase {
+    pub spec: Spec,
+    pub pih: [u64; 4],
+    /// POINTS rows, each `num_wires` wire values followed by `num_constants` constants
+    pub pts: Vec<Vec<u64>>,
+}
+
+fn base_case() -> BoxedStrategy<BaseCase> {
+    bx(spec_strategy(false).prop_flat_map(|spec| {
+        let g = spec.gate();
+        let n = g.0.num_wires() + g.0.num_constants();
+        (
+            Just(spec),
+            [any_repr(), any_repr(), any_repr(), any_repr()],
+            prop::collection::vec(prop::collection::vec(any_repr(), n..=n), POINTS..=POINTS),
+        )
+            .prop_map(|(spec, pih, pts)| BaseCase { spec, pih, pts })
+    }))
+}
+
+/// Lay `pts[range]` out as `EvaluationVarsBaseBatch` documents: value 0 of all points, then value 1, ...
+fn layout(pts: &[Vec<F>], from: usize, to: usize, lo: usize, hi: usize) -> Vec<F> {
+    let mut v = Vec::with_capacity((hi - lo) * (to - from));
+    for k in lo..hi {
+        for p in &pts[from..to] {
+            v.push(p[k]);
+        }
+    }
+    v
+}
+
+fn prop_base(c: &BaseCase, st: &mut Stats) -> Result<(), String> {
+    let gate = c.spec.gate();
+    let id = gate.0.id();
+    let (nw, nc, ncons) = (gate.0.num_wires(), gate.0.num_constants(), gate.0.num_constraints());
+    if c.pts.len() != POINTS || c.pts.iter().any(|p| p.len() != nw + nc) {
+        return Err("harness: case does not match the gate's width".into());
+    }
+    let pih = pih_of(&c.pih);
+    let pts: Vec<Vec<F>> = c.pts.iter().map(|p| p.iter().map(|&x| f(x)).collect()).collect();
+    // reference: the extension-field evaluator on each lifted point
+    let mut reference: Vec<Vec<[u64; 2]>> = Vec::with_capacity(POINTS);
+    for p in &pts {
+        let out = eval_ext(&gate, &lift(&p[nw..]), &lift(&p[..nw]), &pih);
+        if out.len() != ncons {
+            return Err(format!("{}: eval_unfiltered returned {} values, num_constraints() = {}", id, out.len(), ncons));
+        }
+        reference.push(out.into_iter().map(canon).collect());
+    }
+    st.label(&param_bucket(&c.spec));
+    // batches: (first point, size)
+    for (from, b) in [(POINTS - 1, 1usize), (POINTS - 4, 3), (0, 32), (0, 33)] {
+        let wires = layout(&pts, from, from + b, 0, nw);
+        let consts = layout(&pts, from, from + b, nw, nw + nc);
+        let batch = EvaluationVarsBaseBatch::new(b, &consts, &wires, &pih);
+        let res = gate.0.eval_unfiltered_base_batch(batch);
+        st.evals(1);
+        if res.len() != b * ncons {
+            return Err(format!("{}: eval_unfiltered_base_batch(batch {}) returned {} values, expected {} x {}", id, b, res.len(), b, ncons));
+        }
+        for i in 0..b {
+            for j in 0..ncons {
+                let got = res[j * b + i].to_canonical_u64();
+                let want = reference[from + i][j];
+                if want != [got, 0] {
+                    return Err(format!(
+                        "{}: constraint {} at point {} of a batch of {}: eval_unfiltered_base_batch = {}, eval_unfiltered = {:?}",
+                        id, j, i, b, got, want
+                    ));
+                }
+            }
+        }
+        if c.spec.has_base_one() {
+            let mut one = vec![F::ZERO; b * ncons];
+            for i in 0..b {
+                gate.0.eval_unfiltered_base_one(batch.view(i), StridedConstraintConsumer::new(&mut one, b, i));
+            }
+            for i in 0..b {
+                for j in 0..ncons {
+                    let got = one[j * b + i].to_canonical_u64();
+                    let want = reference[from + i][j];
+                    if want != [got, 0] {
+                        return Err(format!(
+                            "{}: constraint {} at point {} (batch of {}): eval_unfiltered_base_one = {}, eval_unfiltered = {:?}",
+                            id, j, i, b, got, want
+                        ));
+                    }
+                }
+            }
+            st.label("base_one_checked");
+        }
+    }
+    if ncons >= 1 {
+        let cl: BTreeSet<&'static str> = c.pts[0].iter().map(|&x| class_of(x)).collect();
+        st.nontrivial(&(id, usize::MAX - 1, cl.into_iter().collect::<Vec<_>>()));
+    } else {
+        st.label("trivial:no_constraints");
+    }
+    Ok(())
+}
+
+// ------------------------------------------------------------------------------------------
+// Evaluators: extension field vs in-circuit
+// ------------------------------------------------------------------------------------------
+
+#[derive(Clone, Debug, Serialize, Deserialize)]
+pub struct CircuitCase {
+    pub spec: Spec,
+    /// false: standard recursion config (80 routed wires); true: 30 routed wires, which makes
+    /// PoseidonGate::eval_unfiltered_circuit take its branch without PoseidonMdsGate.
+    pub narrow: bool,
+    /// rows of `num_wires + num_constants` extension values
+    pub rows: Vec<Vec<[u64; 2]>>,
+    pub pihs: Vec<[u64; 4]>,
+}
+
+fn circuit_case(rows: usize) -> BoxedStrategy<CircuitCase> {
+    bx((spec_strategy(false), any::<bool>()).prop_flat_map(move |(spec, narrow)| {
+        let g = spec.gate();
+        let n = g.0.num_wires() + g.0.num_constants();
+        let ext = || (any_repr(), prop_oneof![3 => any_repr(), 1 => Just(0u64)]).prop_map(|(a, b)| [a, b]);
+        (
+            Just(spec),
+            Just(narrow),
+            prop::collection::vec(prop::collection::vec(ext(), n..=n), rows..=rows),
+            prop::collection::vec([any_repr(), any_repr(), any_repr(), any_repr()], rows..=rows),
+        )
+            .prop_map(|(spec, narrow, rows, pihs)| CircuitCase { spec, narrow, rows, pihs })
+    }))
+}
+
+fn prop_circuit(c: &CircuitCase, st: &mut Stats) -> Result<(), String> {
+    let gate = c.spec.gate();
+    let id = gate.0.id();
+    let (nw, nc, ncons) = (gate.0.num_wires(), gate.0.num_constants(), gate.0.num_constraints());
+    if c.rows.iter().any(|r| r.len() != nw + nc) || c.pihs.len() != c.rows.len() {
+        return Err("harness: case does not match the gate's width".into());
+    }
+    let config = if c.narrow {
+        CircuitConfig { num_routed_wires: 30, ..CircuitConfig::standard_recursion_config() }
+    } else {
+        CircuitConfig::standard_recursion_config()
+    };
+    let mut builder = CircuitBuilder::<F, D>::new(config);
+    let wires_t = builder.add_virtual_extension_targets(nw);
+    let consts_t = builder.add_virtual_extension_targets(nc);
+    let pih_t = builder.add_virtual_hash();
+    let outs_t = gate.0.eval_unfiltered_circuit(
+        &mut builder,
+        EvaluationTargets { local_constants: &consts_t, local_wires: &wires_t, public_inputs_hash: &pih_t },
+    );
+    if outs_t.len() != ncons {
+        return Err(format!("{}: eval_unfiltered_circuit returned {} targets, num_constraints() = {}", id, outs_t.len(), ncons));
+    }
+    let num_gates = builder.num_gates();
+    let data = builder.mock_build::<PoseidonGoldilocksConfig>();
+    st.label(&param_bucket(&c.spec));
+    st.label(if c.narrow { "circuit_config:30_routed" } else { "circuit_config:standard" });
+    for (row, pih_raw) in c.rows.iter().zip(&c.pihs) {
+        let vals: Vec<FE> = row.iter().map(|&x| fe(x)).collect();
+        let pih = pih_of(pih_raw);
+        let want = eval_ext(&gate, &vals[nw..], &vals[..nw], &pih);
+        if want.len() != ncons {
+            return Err(format!("{}: eval_unfiltered returned {} values, num_constraints() = {}", id, want.len(), ncons));
+        }
+        let mut pw = PartialWitness::<F>::new();
+        pw.set_extension_targets(&wires_t, &vals[..nw]).map_err(|e| format!("{:#}", e))?;
+        pw.set_extension_targets(&consts_t, &vals[nw..]).map_err(|e| format!("{:#}", e))?;
+        pw.set_hash_target(pih_t, pih).map_err(|e| format!("{:#}", e))?;
+        let w = generate_partial_witness::<F, PoseidonGoldilocksConfig, D>(pw, &data.prover_only, &data.common)
+            .map_err(|e| format!("{}: witness generation for eval_unfiltered_circuit failed: {:#}", id, e))?;
+        st.evals(1);
+        for (j, t) in outs_t.iter().enumerate() {
+            let mut got = [0u64; 2];
+            for (k, &bt) in t.0.iter().enumerate() {
+                got[k] = w
+                    .try_get_target(bt)
+                    .ok_or_else(|| format!("{}: output {} of eval_unfiltered_circuit has no value after witness generation", id, j))?
+                    .to_canonical_u64();
+            }
+            if got != canon(want[j]) {
+                return Err(format!(
+                    "{}: constraint {}: eval_unfiltered_circuit evaluates to {:?}, eval_unfiltered = {:?} ({} routed wires)",
+                    id,
+                    j,
+                    got,
+                    canon(want[j]),
+                    if c.narrow { 30 } else { 80 }
+                ));
+            }
+        }
+    }
+    if ncons >= 1 {
+        st.nontrivial(&(id.clone(), usize::MAX - 2, c.narrow));
+    } else {
+        st.label("trivial:no_constraints");
+    }
+    st.sample(|| json!({"gate": id, "narrow": c.narrow, "rows_of_eval_circuit": num_gates}));
+    Ok(())
+}
+
+// ------------------------------------------------------------------------------------------
+// Degree
+// ------------------------------------------------------------------------------------------
+
+#[derive(Clone, Debug, Serialize, Deserialize)]
+pub struct DegCase {
+    pub spec: Spec,
+    /// witness polynomials have degree < 2^log_n
+    pub log_n: usize,
+    /// coset shift (non-zero)
+    pub shift: u64,
+    pub pih: [u64; 4],
+    /// (num_wires + num_constants) polynomials of 2^log_n extension coefficients, flattened
+    pub coeffs: Vec<[u64; 2]>,
+}
+
+fn deg_case() -> BoxedStrategy<DegCase> {
+    bx((spec_strategy(false), 2usize..=3).prop_flat_map(|(spec, log_n)| {
+        let g = spec.gate();
+        let len = (g.0.num_wires() + g.0.num_constants()) << log_n;
+        (
+            Just(spec),
+            Just(log_n),
+            canonical_nonzero(),
+            [any_repr(), any_repr(), any_repr(), any_repr()],
+            prop::collection::vec((canonical(), canonical()).prop_map(|(a, b)| [a, b]), len..=len),
+        )
+            .prop_map(|(spec, log_n, shift, pih, coeffs)| DegCase { spec, log_n, shift, pih, coeffs })
+    }))
+}
+
+fn prop_degree(c: &DegCase, st: &mut Stats) -> Result<(), String> {
+    let gate = c.spec.gate();
+    let id = gate.0.id();
+    let (nw, nc, ncons, d) = (gate.0.num_wires(), gate.0.num_constants(), gate.0.num_constraints(), gate.0.degree());
+    let n = 1usize << c.log_n;
+    if c.coeffs.len() != (nw + nc) * n || c.shift % P == 0 {
+        return Err("harness: case does not match the gate's width".into());
+    }
+    // Enough points to see one full degree step above the declared bound without wrap-around.
+    let m = ((d + 2) * n).next_power_of_two();
+    let log_m = m.trailing_zeros() as usize;
+    let shift = ext_from_base(f(c.shift));
+    let pih = pih_of(&c.pih);
+    let polys: Vec<Vec<FE>> = c.coeffs.chunks(n).map(|ch| ch.iter().map(|&x| fe(x)).collect()).collect();
+    let mut cons: Vec<Vec<FE>> = vec![Vec::with_capacity(m); ncons];
+    for x in FE::two_adic_subgroup(log_m) {
+        let pt = x * shift;
+        // Horner, by hand
+        let vals: Vec<FE> = polys.iter().map(|p| p.iter().rev().fold(FE::ZERO, |acc, &co| acc * pt + co)).collect();
+        let out = eval_ext(&gate, &vals[nw..], &vals[..nw], &pih);
+        st.evals(1);
+        if out.len() != ncons {
+            return Err(format!("{}: eval_unfiltered returned {} values, num_constraints() = {}", id, out.len(), ncons));
+        }
+        for (j, o) in out.into_iter().enumerate() {
+            cons[j].push(o);
+        }
+    }
+    let bound = d * (n - 1);
+    let mut max_deg: Option<usize> = None;
+    for (j, vals) in cons.into_iter().enumerate() {
+        let co = PolynomialValues::new(vals).coset_ifft(shift);
+        let deg = co.coeffs.iter().rposition(|x| canon(*x) != [0, 0]);
+        if let Some(dg) = deg {
+            if dg > bound {
+                return Err(format!(
+                    "{}: constraint {} has degree {} on witness polynomials of degree < {}; declared degree() = {} allows at most {}",
+                    id, j, dg, n, d, bound
+                ));
+            }
+            max_deg = Some(max_deg.map_or(dg, |m0: usize| m0.max(dg)));
+        }
+    }
+    st.label(&param_bucket(&c.spec));
+    if ncons >= 1 {
+        st.label(if max_deg == Some(bound) { "degree_bound:attained" } else { "degree_bound:slack" });
+        st.nontrivial(&(id, usize::MAX - 3, c.log_n));
+    } else {
+        st.label("trivial:no_constraints");
+    }
+    Ok(())
+}
+
+// ------------------------------------------------------------------------------------------
+// Deterministic sweep over every parameter value (one fixed row each): (i) + (ii), and the
+// per-gate table of generator-written / pinned wires.
+// ------------------------------------------------------------------------------------------
+
+fn fixed_row(spec: &Spec) -> RowCase {
+    let g = spec.gate();
+    let (nw, nc) = (g.0.num_wires(), g.0.num_constants());
+    // fixed, parameter-free values: a multiplicative walk (no RNG)
+    let mut x = 0x9E37_79B9_7F4A_7C15u64;
+    let mut next = || {
+        x = x.wrapping_mul(6364136223846793005).wrapping_add(1442695040888963407);
+        (x >> 1) % P
+    };
+    RowCase {
+        spec: spec.clone(),
+        inputs: (0..nw).map(|i| (next(), (i % 4) as u8)).collect(),
+        consts: (0..nc).map(|_| next()).collect(),
+        pih: [next(), next(), next(), next()],
+        repl: (0..nw).map(|_| next()).collect(),
+    }
+}
+
+fn sweep(ctx: &mut Ctx) {
+    let mut table: BTreeMap<&'static str, (u64, u64, u64, usize, usize)> = BTreeMap::new();
+    let mut st = Stats::new();
+    for spec in all_specs() {
+        let c = fixed_row(&spec);
+        let gate = spec.gate();
+        st.eval();
+        let r = crate::engine::catch(|| {
+            let h = build_honest(&spec, &gate, &c)?;
+            check_honest(&gate, &h)?;
+            check_pinned(&c, &gate, &h, &mut st)
+        })
+        .unwrap_or_else(|p| Err(format!("panic: {}", p)));
+        match r {
+            Ok((w, p)) => {
+                let e = table.entry(spec.kind()).or_insert((0, 0, 0, usize::MAX, 0));
+                e.0 += 1;
+                e.1 += w as u64;
+                e.2 += p as u64;
+                e.3 = e.3.min(w);
+                e.4 = e.4.max(w);
+            }
+            Err(reason) => {
+                ctx.violation("pinned", &c, &reason);
+                return;
+            }
+        }
+    }
+    st.label_n("sweep:parameterisations", table.values().map(|e| e.0).sum());
+    ctx.stats.merge(st);
+    let rows: Vec<_> = table
+        .iter()
+        .map(|(k, e)| json!({"gate": k, "parameterisations": e.0, "written_wires_total": e.1, "pinned_wires_total": e.2, "written_min": e.3, "written_max": e.4}))
+        .collect();
+    for (k, e) in &table {
+        eprintln!("[C07 sweep] {:<26} params={:<3} written(min..max)={}..{} written_total={} pinned_total={}", k, e.0, e.3, e.4, e.1, e.2);
+    }
+    ctx.extra.insert("generator_written_wires".into(), json!(rows));
+}
 
 pub fn run(ctx: &mut Ctx) {
-    let _ = ctx;
+    ctx.rule = "case = built-in gate x parameters (num_ops, limbs x base, consts, subgroup bits x max degree, power bits, \
+                random-access bits x copies x extra constants via new_from_config, coeffs) x a row; honest_row/pinned: inputs are \
+                the wires some generator watches and none writes (found by running the generators), values from G-field mapped \
+                into the generators' preconditions, the gate's own generators (plus the builder's ConstantGenerator per \
+                extra_constant_wires entry) fill the rest; pinned replaces EVERY generator-written wire by old+1, 0/1 and a \
+                generated value; evaluators_*: arbitrary rows; degree: random witness polynomials of degree < 4 or 8. \
+                non-trivial = gate has >= 1 generator-written wire (pinned) / >= 1 constraint (others); \
+                distinct = (gate id incl. parameters, wire, input class)"
+        .into();
+    ctx.assumptions.push("generator preconditions respected: BaseSum input < B^num_limbs < p, coset shift != 0, exponent and Poseidon swap wires are bits, random-access index < 2^bits, RandomAccessGate configs give >= 1 copy".into());
+    ctx.assumptions.push("wire values may be any 64-bit representation of a residue (GoldilocksField arithmetic produces non-canonical representations itself); results are compared by residue".into());
+    ctx.assumptions.push("ConstantGate / RandomAccessGate extra-constant wires are written by the builder's ConstantGenerator, instantiated here exactly as CircuitBuilder::add_gate does".into());
+    ctx.assumptions.push("eval_unfiltered_base_one is only called on gates that implement it; gates overriding eval_unfiltered_base_batch document it as unnecessary and panic".into());
+    ctx.assumptions.push("the inverse FFT used to read off constraint degrees is the library's (judged by C15); forward evaluation of the witness polynomials is Horner in this file".into());
+    ctx.shrink_iters = 200;
+
+    let run_sweep = ctx.replay.is_none() && ctx.only_sub.as_deref().map_or(true, |s| s == "pinned");
+    if run_sweep {
+        sweep(ctx);
+    }
+    let (n_honest, n_pinned, n_base, n_circ, circ_rows, n_deg) =
+        ctx.tier.pick((6000, 3000, 2500, 320, 4, 1200), (150_000, 60_000, 60_000, 6000, 8, 24_000));
+    ctx.run_sub("honest_row", n_honest, 16, row_case, prop_honest);
+    ctx.run_sub("pinned", n_pinned, 16, row_case, prop_pinned);
+    ctx.run_sub("evaluators_base", n_base, 16, base_case, prop_base);
+    ctx.run_sub("evaluators_circuit", n_circ, 16, move || circuit_case(circ_rows), prop_circuit);
+    ctx.run_sub("degree", n_deg, 16, deg_case, prop_degree);
 }
